@@ -3,6 +3,7 @@ EVM = "hippolyzer/lib/proxy/http_event_manager.py"
 FLOW = "hippolyzer/lib/proxy/http_flow.py"
 PROXY = "hippolyzer/lib/proxy/http_proxy.py"
 CAPS = "hippolyzer/lib/proxy/caps.py"
+REGION = "hippolyzer/lib/proxy/region.py"
 
 _FINALLY = ("        finally:\n"
             "            # If someone has taken this request out of the regular callback flow,\n"
@@ -146,6 +147,14 @@ VARIANTS = [
             "                        orig_flow.intercept()\n",
      "new": "                    found = self.flows.get(flow_id)\n                    if found:\n"
             "                        orig_flow = found\n                        orig_flow.intercept()\n"},
+    {"name": "R3 ExitStack form: resume registered only after set_state", "expect": "C15.R3",
+     "edits": [{"file": PROXY, "old": '            orig_flow: typing.Optional[HTTPFlow] = None\n            try:\n                try:\n                    event_type, flow_id, flow_state = self.to_proxy_queue.get(False)\n                except queue.Empty:\n                    await asyncio.sleep(0.001)\n                    continue\n                if event_type == "callback":\n                    orig_flow = self.flows[flow_id]\n                    orig_flow.set_state(flow_state)\n                elif event_type == "preempt":\n                    orig_flow = self.flows.get(flow_id)\n                    if orig_flow:\n                        orig_flow.intercept()\n                        orig_flow.set_state(flow_state)\n', "new": '            with contextlib.ExitStack() as on_exit:\n              try:\n                try:\n                    event_type, flow_id, flow_state = self.to_proxy_queue.get(False)\n                except queue.Empty:\n                    await asyncio.sleep(0.001)\n                    continue\n                if event_type == "callback":\n                    orig_flow = self.flows[flow_id]\n                    orig_flow.set_state(flow_state)\n                    if orig_flow is not None:\n                        on_exit.callback(orig_flow.resume)\n                elif event_type == "preempt":\n                    orig_flow = self.flows.get(flow_id)\n                    if orig_flow is not None:\n                        on_exit.callback(orig_flow.resume)\n                    if orig_flow:\n                        orig_flow.intercept()\n                        orig_flow.set_state(flow_state)\n'},
+               {"file": PROXY, "old": '            except:\n                logging.exception("Failed in HTTP callback")\n            finally:\n                if orig_flow is not None:\n                    orig_flow.resume()\n', "new": '              except:\n                logging.exception("Failed in HTTP callback")\n'},
+               {"file": PROXY, "old": "import asyncio\nimport logging\n", "new": "import asyncio\nimport contextlib\nimport logging\n"}]},
+    {"name": "P R3 ExitStack form: resume registered right after the look-up", "expect": "silent",
+     "edits": [{"file": PROXY, "old": '            orig_flow: typing.Optional[HTTPFlow] = None\n            try:\n                try:\n                    event_type, flow_id, flow_state = self.to_proxy_queue.get(False)\n                except queue.Empty:\n                    await asyncio.sleep(0.001)\n                    continue\n                if event_type == "callback":\n                    orig_flow = self.flows[flow_id]\n                    orig_flow.set_state(flow_state)\n                elif event_type == "preempt":\n                    orig_flow = self.flows.get(flow_id)\n                    if orig_flow:\n                        orig_flow.intercept()\n                        orig_flow.set_state(flow_state)\n', "new": '            with contextlib.ExitStack() as on_exit:\n              try:\n                try:\n                    event_type, flow_id, flow_state = self.to_proxy_queue.get(False)\n                except queue.Empty:\n                    await asyncio.sleep(0.001)\n                    continue\n                if event_type == "callback":\n                    orig_flow = self.flows[flow_id]\n                    if orig_flow is not None:\n                        on_exit.callback(orig_flow.resume)\n                    orig_flow.set_state(flow_state)\n                elif event_type == "preempt":\n                    orig_flow = self.flows.get(flow_id)\n                    if orig_flow is not None:\n                        on_exit.callback(orig_flow.resume)\n                    if orig_flow:\n                        orig_flow.intercept()\n                        orig_flow.set_state(flow_state)\n'},
+               {"file": PROXY, "old": '            except:\n                logging.exception("Failed in HTTP callback")\n            finally:\n                if orig_flow is not None:\n                    orig_flow.resume()\n', "new": '              except:\n                logging.exception("Failed in HTTP callback")\n'},
+               {"file": PROXY, "old": "import asyncio\nimport logging\n", "new": "import asyncio\nimport contextlib\nimport logging\n"}]},
     {"name": "P R3 truthiness form of the guard", "file": PROXY, "expect": "silent",
      "old": "                if orig_flow is not None:\n                    orig_flow.resume()\n",
      "new": "                if orig_flow:\n                    orig_flow.resume()\n"},
@@ -202,6 +211,24 @@ VARIANTS = [
     {"name": "P R4 pre-hook request URL only logged after the addon hooks", "file": EVM, "expect": "silent",
      "old": "        AddonManager.handle_http_request(flow)\n",
      "new": "        AddonManager.handle_http_request(flow)\n        LOG.debug(\"addons saw %s\", url)\n"},
+    {"name": "R4 ProxiedRegion overloads truthiness with __len__", "file": REGION, "expect": "C15.R4",
+     "old": "    def mark_dead(self):\n        super().mark_dead()\n        self.eq_manager.clear()\n",
+     "new": "    def mark_dead(self):\n        super().mark_dead()\n        self.eq_manager.clear()\n\n"
+            "    def __len__(self):\n        return len(self.caps)\n"},
+    {"name": "P R4 ProxiedRegion gains an unrelated dunder", "file": REGION, "expect": "silent",
+     "old": "    def mark_dead(self):\n        super().mark_dead()\n        self.eq_manager.clear()\n",
+     "new": "    def mark_dead(self):\n        super().mark_dead()\n        self.eq_manager.clear()\n\n"
+            "    def __hash__(self):\n        return id(self)\n"},
+    {"name": "R4 both flow queues bounded", "file": PROXY, "expect": "C15.R4",
+     "old": "        self.from_proxy_queue = multiprocessing.Queue()\n        self.to_proxy_queue = multiprocessing.Queue()\n",
+     "new": "        self.from_proxy_queue = multiprocessing.Queue(maxsize=64)\n        self.to_proxy_queue = multiprocessing.Queue(64)\n"},
+    {"name": "P R4 only the inbound queue bounded", "file": PROXY, "expect": "silent",
+     "old": "        self.from_proxy_queue = multiprocessing.Queue()\n        self.to_proxy_queue = multiprocessing.Queue()\n",
+     "new": "        self.from_proxy_queue = multiprocessing.Queue(maxsize=64)\n        self.to_proxy_queue = multiprocessing.Queue(0)\n"},
+    {"name": "R4 bridge tag names a cap type that does not exist", "file": PROXY, "expect": "C15.R4",
+     "old": "SerializedCapData(cap_name=\"FirestormBridge\")", "new": "SerializedCapData(cap_name=\"FirestormBridge\", type=\"Normal\")"},
+    {"name": "P R4 bridge tag spells out the default cap type name", "file": PROXY, "expect": "silent",
+     "old": "SerializedCapData(cap_name=\"FirestormBridge\")", "new": "SerializedCapData(cap_name=\"FirestormBridge\", type=\"NORMAL\")"},
     {"name": "P R4 positional construction", "file": CAPS, "expect": "silent",
      "old": "            cap_name=self.cap_name,\n            region_addr=", "new": "            self.cap_name,\n            region_addr="},
     {"name": "P R4 `not in` form of a default", "file": FLOW, "expect": "silent",
